@@ -526,7 +526,7 @@ def fault_scenario(st, scen):
                 st.violate('c15:failed-op-changed-store:op=%s:fault=%s(%s)@%s' % (scenario_class(scen), s.name, e if s.name != 'fsync' else 'any', where),
                            '%s reported failure (%s) after %s was made to fail with %s, but: %s' % (scen, (res.get('error') or '')[:120], s.raw[:140], e, '; '.join(v['problems'])[:300]),
                            '%s/%s#%d/%s' % (scen, s.name, s.occ, e), {'scenario': scen, 'fault': e, 'syscall': s.raw[:300], 'result': res, 'state': v.get('state'), 'tree': tree, 'problems': v['problems']})
-            else:
+            elif scenario_class(scen) != 'remove':  # remove has no way to report a failure
                 st.violate('c15:success-reported-but-change-incomplete:op=%s:fault=%s@%s' % (scenario_class(scen), s.name, where),
                            '%s reported success although %s failed with %s, and: %s' % (scen, s.raw[:140], e, '; '.join(v['problems'])[:300]),
                            '%s/%s#%d/%s' % (scen, s.name, s.occ, e), {'scenario': scen, 'fault': e, 'syscall': s.raw[:300], 'result': res, 'state': v.get('state'), 'tree': tree, 'problems': v['problems']})
